@@ -19,6 +19,8 @@ def _v(world, x, frozen):
         if frozen is not None and str(x["p"]) in frozen:
             return frozen[str(x["p"])]
         return world.pool["p"][x["p"]].get()
+    if isinstance(x, dict) and "np" in x:
+        return x["v"]
     return x
 
 
@@ -55,13 +57,13 @@ def build(world, log: list, frozen: dict | None = None):
                 c.loss(e[1], lv)
                 c.loss(e[1] + 1 if e[2] is None else e[2], lv)
             else:
-                c.bs(e[1], e[2], _v(world, e[3], frozen), e[4], **kw)
+                c.bs(e[1], e[2], _v(world, e[3], frozen), _v(world, e[4], frozen), **kw)
         elif k == "ps":
             if _isp(e[3]):
                 c.ps(e[1], _v(world, e[2], frozen), 0)
                 c.loss(e[1], _v(world, e[3], frozen))
             else:
-                c.ps(e[1], _v(world, e[2], frozen), e[3])
+                c.ps(e[1], _v(world, e[2], frozen), _v(world, e[3], frozen))
         elif k == "loss":
             c.loss(e[1], _v(world, e[2], frozen))
         elif k == "barrier":
